@@ -565,18 +565,18 @@ class SBlock(Block):
                 if cond_etype is None:
                     return None
                 etype = cond_etype
-            if 0 <= self.init_steps_completed < 2:
-                # a destination block may be uninitialized, because events
-                # may be generated during the initialization process
-                self.log_debug("pending event, initializing early")
-                # the initialization may be carried out with an event, let's enable it
-                with self._enable_event:    # type: ignore[attr-defined]
-                    self.circuit.init_sblock(self, full=True)
             if isinstance(etype, str):
                 handler = type(self)._ct_handlers.get(etype)
             else:
                 handler = None
             try:
+                if 0 <= self.init_steps_completed < 2:
+                    # a destination block may be uninitialized, because events
+                    # may be generated during the initialization process
+                    self.log_debug("pending event, initializing early")
+                    # the initialization may be carried out with an event, let's enable it
+                    with self._enable_event:    # type: ignore[attr-defined]
+                        self.circuit.init_sblock(self, full=True)
                 if handler:
                     # handler is an unbound method
                     retval = handler(self, **data)
